@@ -43,6 +43,9 @@ func familyDiscovery(t *testing.T) {
 					script = append(script, dOutcome{kind: "5xx"})
 				case 5: // 200 OK with a body that is not a JSON document at all
 					script = append(script, dOutcome{kind: []string{"empty200", "ws200", "truncated", "html", "array", "typemismatch", "typemismatch"}[rng.Intn(7)]})
+					if sc%3 == 1 { // ... or that is JSON but not a metadata document: a provider that is still starting, an error object, a document with a required endpoint missing
+						script[len(script)-1].kind = incompleteKinds[rng.Intn(len(incompleteKinds))]
+					}
 				case 2:
 					script = append(script, dOutcome{kind: "malformed"})
 				case 3:
@@ -59,15 +62,16 @@ func familyDiscovery(t *testing.T) {
 				return d
 			}
 			if rng.Intn(12) == 0 {
-				d := mkDoc()
-				d.issuerEmpty = true // a syntactically valid document without issuer: initialisation "succeeds", the instance must stay closed
-				script = append(script, d)
-			} else {
-				script = append(script, mkDoc())
+				// a syntactically valid document without issuer is no metadata: a failed attempt like any other
+				script = append(script, dOutcome{kind: "noissuer"})
 			}
+			script = append(script, mkDoc())
 			for i := 0; i < rng.Intn(4); i++ {
 				for k := 0; k < rng.Intn(8); k++ {
 					script = append(script, dOutcome{kind: []string{"refused", "5xx", "malformed", "empty200", "ws200", "truncated", "typemismatch"}[rng.Intn(7)]})
+					if sc%3 == 1 && k%2 == 0 {
+						script[len(script)-1].kind = incompleteKinds[rng.Intn(len(incompleteKinds))]
+					}
 				}
 				script = append(script, mkDoc())
 			}
@@ -105,6 +109,20 @@ func familyDiscovery(t *testing.T) {
 					return 200, fmt.Sprintf(`{"issuer":"https://idp.test","authorization_endpoint":"https://stale%d.idp.test/auth","token_endpoint":"https://stale%d.idp.test/token","jwks_uri":["https://stale%d.idp.test/jwks"],"end_session_endpoint":"https://stale%d.idp.test/logout","revocation_endpoint":"https://stale%d.idp.test/revoke"}`, i, i, i, i, i), o.dur, false
 				case "slowfail":
 					return 0, "", o.dur, true
+				case "emptyobj":
+					return 200, "{}", o.dur, false
+				case "jsonnull":
+					return 200, "null", o.dur, false
+				case "starting":
+					return 200, `{"error":"starting"}`, o.dur, false
+				case "issueronly":
+					return 200, `{"issuer":"` + issuerURL + `","status":"starting"}`, o.dur, false
+				case "noissuer", "noauth", "notoken", "nojwks":
+					var m M
+					json.Unmarshal([]byte(docJSON(fmt.Sprintf("stale%d", i), false, false)), &m)
+					delete(m, map[string]string{"noissuer": "issuer", "noauth": "authorization_endpoint", "notoken": "token_endpoint", "nojwks": "jwks_uri"}[o.kind])
+					b, _ := json.Marshal(m)
+					return 200, string(b), o.dur, false
 				default:
 					return 200, docJSON(o.doc, o.issuerEmpty, o.noES), o.dur, false
 				}
@@ -351,6 +369,10 @@ func familyDiscovery(t *testing.T) {
 		T.finish()
 	})
 }
+
+// 200 answers that are JSON but not provider metadata (OpenID Connect Discovery 1.0 section 3 requires issuer,
+// authorization_endpoint, token_endpoint and jwks_uri)
+var incompleteKinds = []string{"emptyobj", "jsonnull", "starting", "issueronly", "noissuer", "noauth", "notoken", "nojwks"}
 
 func docJSON(doc string, issuerEmpty, noES bool) string {
 	base := "https://" + doc + ".idp.test"
